@@ -106,6 +106,13 @@ def collect_calls(P, tu, fn, env, depth=0, seen=None, out=None):
     f = P.func(tu, fn)
     for b in f.reachable(None, env):
         for ei, ev in enumerate(f.blocks[b]['ev']):
+            if ev['k'] == 'assign' and ev['op'] == '=':
+                # function address taken under this environment (function-pointer locals): counts as reached
+                r = cf.strip_casts(ev.get('rhs'))
+                if isinstance(r, dict) and r.get('k') == 'ref' and r.get('fn'):
+                    out.append({'name': r['n'], 'macro': ev.get('macro'), 'args': [], 'loc': ev.get('sloc') or ev['loc'], 'in': fn,
+                                'callee': None, 'bid': b, 'idx': ei, 'addr_taken': True})
+                continue
             if ev['k'] != 'call':
                 continue
             e = ev['e']
